@@ -89,6 +89,15 @@ def rectShadeCorners (g a t : Ang) (o : Vec3) (w h : Rat) : List Vec3 :=
 def rectShadeSpec (g a t : Ang) (o : Vec3) (u v : Rat) : Vec3 :=
   rotZ (Ang.neg g) (vadd o (vadd (vsmul u ⟨-a.c, a.s, 0⟩) (vsmul v ⟨-(t.c * a.s), -(t.c * a.c), t.s⟩)))
 
+/-- `shades_from_bdl`, `BUILDING-SHADE` given by vertices: the polygon point of vertex `v` — move the first vertex `v0` to the origin,
+    undo the shade's azimuth `a` (turn about z), undo its tilt `t` (turn about x), keep x and y -/
+def vertShadeLocal (a t : Ang) (v0 v : Vec3) : Vec3 :=
+  rotX (Ang.neg t) (rotZ (Ang.neg a) ⟨v.x - v0.x, v.y - v0.y, v.z - v0.z⟩)
+
+/-- its global corner: position = first vertex turned by the building's deviation, azimuth = shade azimuth minus deviation -/
+def vertShadeCorner (g a t : Ang) (v0 v : Vec3) : Vec3 :=
+  toGlobal (rotZ (Ang.neg g) v0) (Ang.add a (Ang.neg g)) t (vertShadeLocal a t v0 v).x (vertShadeLocal a t v0 v).y
+
 /-- a point of the wall's own frame in global coordinates (`to_global_coords_matrix`) -/
 def wallToWorld (pos : Vec3) (az t : Ang) (p : Vec3) : Vec3 := vadd pos (rotZ az (rotX t p))
 
